@@ -20,6 +20,10 @@ RULE = ("every acyclic ADMG(n) and ancestral graph with undirected edges ANC(n) 
         "(Run.v mode 3) on every graph with directed/undirected edges on <= 4 nodes x every start set and on 300/3000 graphs n=6..12 whose "
         "start set holds all but 1-3 nodes, densely parents/neighbours of each other around a hub, the other nodes hanging on single "
         "start nodes, under several insertion orders; 250/2500 criterion cases of the same shape (Z = almost all nodes); "
+        "LARGE-DISTRICT stream: one bidirected district of 16-24 (thorough: 16-40) nodes (binomial trees in 'tournament' "
+        "node/edge order - pairs, pairs of pairs, ... -, natural and reverse order, balanced binary merges, paths, random trees) with 1-3 "
+        "directed parents, node order and edge order as listed plus shuffled variants, and 12/60 graphs with two or three such districts "
+        "side by side and interleaved; expectation = the extracted proved model (brute-force oracle off); "
         "DEEP stream (3 graphs of 200-280 nodes: district chain p->c0<->...<->c199<-q with "
         "side branches, long directed + undirected anterior chains, ladder of 70 districts) run with 120 frames of recursion head-room "
         "(HEAD is iterative there); their expectation is the Python transcription harness/c12_ref.py of the model's definitions, which "
@@ -127,6 +131,96 @@ def und_chain_graph(rng, n):
     return g, chain, rest
 
 
+def _tz(v):
+    """number of trailing zero bits (v > 0)"""
+    k = 0
+    while v % 2 == 0:
+        v //= 2
+        k += 1
+    return k
+
+
+def district_shapes(rng, m):
+    """bidirected trees on nodes 0..m-1 (one district), as (name, node order, edge list in insertion order)"""
+    # binomial tree: node v > 0 hangs on v with its lowest set bit cleared
+    binom = [[v, v & (v - 1)] for v in range(1, m)]
+    tour = sorted(range(1, m), key=lambda v: (_tz(v), v)) + [0]          # odd nodes first, ..., node 0 last
+    byrank = sorted(binom, key=lambda e: (_tz(e[0]), e[0]))                 # pairs, then pairs of pairs, ...
+    yield "binomial:tournament", tour, byrank
+    yield "binomial:tournament-rev-edges", tour, [[b, a] for a, b in byrank]
+    yield "binomial:natural", list(range(m)), binom
+    yield "binomial:reverse", list(range(m))[::-1], binom[::-1]
+    # balanced binary merge over a path-like tree: blocks [lo, hi) joined by an edge between their first nodes / middle nodes
+    edges = []
+    size = 1
+    while size < m:
+        for lo in range(0, m, 2 * size):
+            if lo + size < m:
+                edges.append([lo + rng.randrange(0, size), lo + size + rng.randrange(0, min(size, m - lo - size))])
+        size *= 2
+    order = list(range(m))
+    yield "balanced-merge", order, edges
+    rng.shuffle(order)
+    yield "balanced-merge:shuffled-nodes", order, edges
+    yield "path", list(range(m)), [[v, v + 1] for v in range(m - 1)]
+    perm = list(range(m))
+    rng.shuffle(perm)
+    yield "random-tree", perm, [[perm[v], perm[rng.randrange(0, v)]] for v in range(1, m)]
+
+
+def big_district_cases(tier, rng):
+    """LARGE-DISTRICT stream: one district of 16-32 nodes (trees / balanced merges / paths) with a few directed parents, and two or
+    three such districts side by side with interleaved node order; node order and edge order are the ones listed (no _order), plus
+    shuffled variants"""
+    sizes = [16, 17, 20, 24] if tier == "quick" else [16, 17, 18, 20, 24, 28, 32, 40]
+    for m in sizes:
+        for name, order, B in district_shapes(rng, m):
+            variants = [(order, B)]
+            o2, b2 = list(order), list(B)
+            rng.shuffle(o2)
+            rng.shuffle(b2)
+            variants.append((order, b2))
+            if m <= 20:
+                variants.append((o2, B))
+            for vi, (od, bd) in enumerate(variants):
+                npar = rng.randint(1, 3)
+                pars = list(range(m, m + npar))
+                D = [[p, rng.randrange(0, m)] for p in pars for _ in range(rng.randint(1, 2))]
+                D = [list(e) for e in {tuple(e) for e in D}]
+                V = list(od)
+                for p in pars:
+                    V.insert(rng.randrange(0, len(V) + 1), p)
+                g = {"V": V, "D": D, "B": [list(e) for e in bd], "U": [], "C": []}
+                qs = [[[pars[0]], [rng.randrange(0, m)], []], [[pars[0]], [pars[-1]], [rng.randrange(0, m)]]]
+                yield {"kind": "district%d:%s" % (m, name), "g": g, "qs": qs if m <= 20 else [], "oracle": False, "big": vi}
+    # two or three districts side by side, nodes interleaved
+    for i in range(12 if tier == "quick" else 60):
+        parts = []
+        off = 0
+        for _ in range(2 if tier == "quick" else rng.randint(2, 3)):
+            m = rng.choice([16, 16, 17] if tier == "quick" else [16, 16, 17, 20])
+            name, order, B = rng.choice(list(district_shapes(rng, m)))
+            parts.append(([off + v for v in order], [[off + a, off + b] for a, b in B]))
+            off += m
+        V, k = [], 0
+        while any(k < len(o) for o, _ in parts):
+            for o, _ in parts:
+                if k < len(o):
+                    V.append(o[k])
+            k += 1
+        B = []
+        k = 0
+        while any(k < len(b) for _, b in parts):
+            for _, b in parts:
+                if k < len(b):
+                    B.append(b[k])
+            k += 1
+        pars = [off, off + 1]
+        D = [[pars[0], parts[0][0][0]], [pars[0], parts[1][0][0]], [pars[1], parts[-1][0][-1]]]
+        yield {"kind": "districts-side-by-side", "g": {"V": V + pars, "D": D, "B": B, "U": [], "C": []}, "qs": [],
+               "oracle": False, "big": i}
+
+
 def gen_cases(tier, rng):
     nmax = 3 if tier == "quick" else 4
     for n in range(0, nmax + 1):       # n = 0: the empty graph
@@ -188,6 +282,8 @@ def gen_cases(tier, rng):
         if i % 3 == 1:
             c["_order"] = i
         yield c
+    # LARGE-DISTRICT stream (union-find style slips need one district of >= 16 nodes merged in a balanced order)
+    yield from big_district_cases(tier, rng)
     # DEEP stream: recursion head-room of 120 frames, expectation from the Python transcription of the model
     for name, g, qs in deep_graphs():
         yield {"kind": "deep:" + name, "g": g, "qs": qs, "oracle": False, "deep": name, "_reclimit": 120}
@@ -424,7 +520,8 @@ def key(case):
     if case.get("unit"):
         return (case["unit"], gr.canon(case["g"]), case.get("_order"), len(case.get("starts", case.get("qs", []))))
     return (gr.canon(case["g"]), tuple(case.get("layers", ALL_LAYERS)), case.get("rep"), tuple(case.get("names") or ()),
-            case.get("obj"), case.get("_lab"), case.get("gattr"))
+            case.get("obj"), case.get("_lab"), case.get("gattr"),
+            (tuple(case["g"]["V"]), tuple(map(tuple, case["g"]["B"]))) if "big" in case else None)
 
 
 def classify(case, impl, model):
